@@ -14,6 +14,7 @@ CONSTANTS HLen, Stride, Offset
 \* --- command table: probe = [cmd, pos, opts, input]; dims = ways to get a neighbour
 Flag(s) == [k |-> "flag", s |-> s]
 Val(s, v) == [k |-> "val", s |-> s, v |-> v]
+Val2(s, a, b) == [k |-> "val2", s |-> s, a |-> a, b |-> b]   \* both invocations carry the option, with different values
 Pos(i, v) == [k |-> "pos", i |-> i, v |-> v]
 In(v) == [k |-> "input", v |-> v]
 Fmt == Val("-F", "fasta")
@@ -24,20 +25,20 @@ Commands == <<
   C("annotate", <<"{file:table1}">>, "phix", <<Pos(1, "{file:table2}"), In("part"), Fmt>>),
   C("clear", <<>>, "phix", <<In("part"), Fmt>>),
   C("complement", <<>>, "phix", <<In("part"), Fmt>>),
-  C("define", <<"misc_feature", "10..20">>, "phix", <<Pos(1, "gene"), Pos(2, "30..40"), Val("-q", "note=x"), In("part"), Fmt>>),
+  C("define", <<"misc_feature", "10..20">>, "phix", <<Pos(1, "gene"), Pos(2, "30..40"), Val("-q", "note=x"), Val2("-q", "note=x", "note=y"), In("part"), Fmt>>),
   C("delete", <<"CDS">>, "phix", <<Flag("-e"), Pos(1, "gene"), In("part"), Fmt>>),
-  C("extract", <<"CDS">>, "phix", <<Flag("-v"), Pos(1, "gene"), In("part"), Fmt>>),
+  C("extract", <<"CDS">>, "phix", <<Flag("-v"), Pos(1, "gene"), In("part"), Fmt, Val2("-F", "fasta", "genbank")>>),
   C("infix", <<"^+10", "{file:part}">>, "guest", <<Flag("-e"), Pos(1, "^+20"), Pos(2, "{file:ecoli}"), In("guest2"), Fmt>>),
   C("insert", <<"^+10", "@acgtacgt">>, "phix", <<Flag("-e"), Pos(1, "^+20"), Pos(2, "@ggccggcc"), In("part"), Fmt>>),
   C("join", <<>>, "two", <<Flag("-c"), In("phix"), Fmt>>),
   C("pick", <<"1">>, "two", <<Flag("-f"), Pos(1, "2"), In("phix"), Fmt>>),
-  C("query", <<>>, "phix", <<Val("-n", "gene"), Val("-d", ";"), Val("-t", "|"), Flag("-H"), Flag("--source"), Flag("-I"),
+  C("query", <<>>, "phix", <<Val("-n", "gene"), Val2("-n", "gene", "product"), Val("-d", ";"), Val2("-d", ";", ":"), Val("-t", "|"), Val2("-t", "|", "+"), Flag("-H"), Flag("--source"), Flag("-I"),
                              Flag("-K"), Flag("-L"), Flag("--empty"), In("part")>>),
   C("repair", <<>>, "phix", <<In("part"), Fmt>>),
-  C("reverse", <<>>, "phix", <<In("part"), Fmt>>),
+  C("reverse", <<>>, "phix", <<In("part"), Fmt, Val2("-F", "fasta", "genbank")>>),
   C("rotate", <<"^+10">>, "phix", <<Pos(1, "^+20"), In("pbat"), Fmt>>),
-  C("search", <<"@atgc">>, "phix", <<Pos(1, "@ggcc"), Val("-k", "gene"), Val("-q", "note=x"), Flag("-e"), Flag("--no-complement"), In("part"), Fmt>>),
-  C("select", <<"CDS">>, "phix", <<Pos(1, "gene"), Val("-s", "forward"), Flag("-v"), In("part"), Fmt>>),
+  C("search", <<"@atgc">>, "phix", <<Pos(1, "@ggcc"), Val("-k", "gene"), Val2("-k", "gene", "CDS"), Val2("-q", "note=x", "note=y"), Val("-q", "note=x"), Flag("-e"), Flag("--no-complement"), In("part"), Fmt>>),
+  C("select", <<"CDS">>, "phix", <<Pos(1, "gene"), Val("-s", "forward"), Val("-s", "reverse"), Val2("-s", "forward", "reverse"), Flag("-v"), In("part"), Fmt, Val2("-F", "fasta", "genbank")>>),
   C("sort", <<>>, "two", <<Flag("-r"), In("phix"), Fmt>>),
   C("split", <<"CDS">>, "phix", <<Pos(1, "gene"), In("part"), Fmt>>),
   C("summary", <<>>, "phix", <<Flag("-F"), Flag("-Q"), In("part")>>),
@@ -48,9 +49,11 @@ Commands == <<
 >>
 
 \* an invocation: [cmd, args, input]
-Probe(c) == [cmd |-> c.cmd, args |-> c.pos, input |-> c.input]
+Probe(c, d) == IF d.k = "val2" THEN [cmd |-> c.cmd, args |-> <<d.s, d.a>> \o c.pos, input |-> c.input]
+               ELSE [cmd |-> c.cmd, args |-> c.pos, input |-> c.input]
 Neighbour(c, d) ==
-  CASE d.k = "flag"  -> [cmd |-> c.cmd, args |-> <<d.s>> \o c.pos, input |-> c.input]
+  CASE d.k = "val2"  -> [cmd |-> c.cmd, args |-> <<d.s, d.b>> \o c.pos, input |-> c.input]
+    [] d.k = "flag"  -> [cmd |-> c.cmd, args |-> <<d.s>> \o c.pos, input |-> c.input]
     [] d.k = "val"   -> [cmd |-> c.cmd, args |-> <<d.s, d.v>> \o c.pos, input |-> c.input]
     [] d.k = "pos"   -> [cmd |-> c.cmd, args |-> [c.pos EXCEPT ![d.i] = d.v], input |-> c.input]
     [] d.k = "input" -> [cmd |-> c.cmd, args |-> c.pos, input |-> d.v]
@@ -77,7 +80,7 @@ CaseJson(j) ==
       hi0 == ((j - 1) % Len(HistSeq)) + 1
       c == Commands[Pairs[pi][1]]
       d == c.dims[Pairs[pi][2]]
-      P == Probe(c)
+      P == Probe(c, d)
       Nb == Neighbour(c, d)
       h == HistSeq[hi0]
   IN [id |-> "c" \o ToString(Pairs[pi][1]) \o "d" \o ToString(Pairs[pi][2]) \o "h" \o ToString(hi0),
